@@ -4,6 +4,7 @@ import (
 	"fmt"
 	"sort"
 	"strings"
+	"sync"
 
 	eval "github.com/onheap/eval"
 )
@@ -60,6 +61,7 @@ func coqObsList(l []Obs) string {
 // ---------- recording fetcher ----------
 
 type Recorder struct {
+	mu  sync.Mutex
 	Log []Obs
 }
 
@@ -196,7 +198,9 @@ func (rc *RunCfg) Build() *Built {
 			v, err := testOpImpl(name, params)
 			o := Obs{Kind: "call", Name: name, Args: args, Res: v, Err: err}
 			if ctx == nil {
+				b.CompileLog.mu.Lock()
 				b.CompileLog.Log = append(b.CompileLog.Log, o)
+				b.CompileLog.mu.Unlock()
 			} else if rf, ok := ctx.VariableFetcher.(*RecFetcher); ok {
 				rf.Rec.Log = append(rf.Rec.Log, o)
 			}
